@@ -91,6 +91,37 @@ def cases(draw, dag=False):
                 exprs = list(cd.terms) if cd.terms else [cd.expr]
                 if cd.cached and any(n[0] == "attr" and n[2] in ("r0", "g0") for x in exprs for n in walk(x)):
                     leafs.append(e)
+            if dag and draw(st.booleans()):
+                # one of the two references changes (discarding what was computed from it), then a discarded
+                # element whose own formula reads a reference gets a value from the user, then the other reference
+                # changes: the assigned value stays
+                readers = []
+                for e in sorted(gsim.held, key=repr):
+                    if e[1] is None or e in gsim.inputs or not all(isinstance(x, str) for x in e[0]) or None in e[2]:
+                        continue
+                    try:
+                        cd = G.find_cells(G.space(e[0]), e[1])[1]
+                    except Exception:
+                        continue
+                    exprs = list(cd.terms) if cd.terms else [cd.expr]
+                    if cd.cached and any((n[0] == "attr" and n[2] in ("r0", "g0")) or (n[0] == "name" and n[1] in ("r0", "g0"))
+                                         for x in exprs for n in walk(x)):
+                        readers.append(e)
+                if readers:
+                    e = draw(st.sampled_from(readers))
+                    rops = [["set_ref", ["S0"], "r0", ["v", draw(st.integers(30, 39))], None],
+                            ["set_ref", [], "g0", ["v", draw(st.integers(30, 39))], None]]
+                    if draw(st.booleans()):
+                        rops.reverse()
+                    op = ["set_value", gen._jsid(e[0]), e[1], list(e[2]), draw(st.integers(251, 290))]
+                    for h in (rops[0], op, rops[1]):
+                        hist.append(h)
+                        apply_ref(G, h)
+                        if h is op:
+                            gsim.assign(e, op[4])
+                        else:
+                            gsim.discard_many([x for x in gsim.held if x not in gsim.inputs])
+                continue
             if leafs and dag:
                 e = draw(st.sampled_from(leafs))
                 op = ["set_value", gen._jsid(e[0]), e[1], list(e[2]), draw(st.integers(200, 250))]
